@@ -444,23 +444,21 @@ func (tb *TermBuilder) load(addr ssa.Value) *Term {
 		return tb.allocTerm(a)
 	case *ssa.FieldAddr:
 		// field of a fresh local struct that is assigned exactly once: name the stored value
-		if al, ok := a.X.(*ssa.Alloc); ok {
+		if al, ok := tb.Strip(a.X).(*ssa.Alloc); ok {
 			var only *ssa.Store
 			n := 0
-			if refs := al.Referrers(); refs != nil {
-				for _, r := range *refs {
-					fa, ok := r.(*ssa.FieldAddr)
-					if !ok || fa.Field != a.Field {
+			for _, blk := range tb.Fn.Blocks {
+				for _, ins := range blk.Instrs {
+					st, ok := ins.(*ssa.Store)
+					if !ok {
 						continue
 					}
-					if frefs := fa.Referrers(); frefs != nil {
-						for _, fr := range *frefs {
-							if st, ok := fr.(*ssa.Store); ok && st.Addr == ssa.Value(fa) {
-								n++
-								only = st
-							}
-						}
+					fa, ok := st.Addr.(*ssa.FieldAddr)
+					if !ok || fa.Field != a.Field || !mayBe(fa.X, al, 0) {
+						continue
 					}
+					n++
+					only = st
 				}
 			}
 			if n == 1 && len(tb.stores[al]) == 0 {
@@ -488,6 +486,37 @@ func (tb *TermBuilder) load(addr ssa.Value) *Term {
 		}
 	}
 	return tb.Of(addr)
+}
+
+// mayBe: v is al, or a phi one of whose (transitive) operands is al.
+func mayBe(v ssa.Value, al *ssa.Alloc, depth int) bool {
+	if v == ssa.Value(al) {
+		return true
+	}
+	if p, ok := v.(*ssa.Phi); ok && depth < 6 {
+		for _, e := range p.Edges {
+			if mayBe(e, al, depth+1) {
+				return true
+			}
+		}
+	}
+	return false
+}
+
+// Strip follows phis that are known to equal one operand at all their uses.
+func (tb *TermBuilder) Strip(v ssa.Value) ssa.Value {
+	for i := 0; i < 8 && tb.PhiResolve != nil; i++ {
+		p, ok := v.(*ssa.Phi)
+		if !ok {
+			break
+		}
+		rv := tb.PhiResolve(p)
+		if rv == nil {
+			break
+		}
+		v = rv
+	}
+	return v
 }
 
 // capturedOnce: a captured variable that is written exactly once (in the
